@@ -196,6 +196,7 @@ func (s *subscriberImpl[T]) NextWithContext(ctx context.Context, v T) {
 	}
 
 	if atomic.LoadInt32(&s.status) == 0 {
+		verifPoint("subscriber:NextWithContext:deliver", s)
 		s.destination.NextWithContext(ctx, v)
 	} else {
 		OnDroppedNotification(ctx, NewNotificationNext(v))
@@ -216,6 +217,7 @@ func (s *subscriberImpl[T]) ErrorWithContext(ctx context.Context, err error) {
 	s.mu.Lock()
 
 	if atomic.CompareAndSwapInt32(&s.status, 0, 1) {
+		verifPoint("subscriber:ErrorWithContext:deliver", s)
 		if s.destination != nil {
 			s.destination.ErrorWithContext(ctx, err)
 		}
@@ -240,6 +242,7 @@ func (s *subscriberImpl[T]) CompleteWithContext(ctx context.Context) {
 	s.mu.Lock()
 
 	if atomic.CompareAndSwapInt32(&s.status, 0, 2) {
+		verifPoint("subscriber:CompleteWithContext:deliver", s)
 		if s.destination != nil {
 			s.destination.CompleteWithContext(ctx)
 		}
